@@ -58,7 +58,7 @@ def tname(n):
 
 
 def digest(f):
-    out = {"iters": [], "news": [], "ambient": [], "sorts": [], "funcs": {}, "gwrites": {}}
+    out = {"iters": [], "news": [], "ambient": [], "sorts": [], "funcs": {}, "gwrites": {}, "sets": []}
     for name, fn in f.funcs.items():
         if "body" not in fn:
             continue
@@ -115,6 +115,11 @@ def digest(f):
                 h = strip(c["c"][1])
                 hname = h["n"] if h is not None and h["k"] == "DeclRefExpr" else ("NULL" if common.const_value(c["c"][1]) == 0 else render(h))
                 out["news"].append((f.unit, name, target, hname, c["l"]))
+            if cal == "tblSetElt" and len(c["c"]) >= 4:
+                k = c["c"][2]
+                while k is not None and k["k"] in ("ParenExpr", "ImplicitCastExpr", "CStyleCastExpr"):
+                    k = k["c"][0]
+                out["sets"].append((f.unit, name, tname(c["c"][1]), (k or {}).get("tc"), render(c["c"][2])[:50], c["l"]))
             if cal in AMBIENT and name not in AMBIENT:
                 out["ambient"].append((f.unit, name, cal, c["l"]))
             if cal == "lisort" and len(c["c"]) >= 5:
@@ -266,6 +271,17 @@ def run(tier, only=None):
                 rep.ok("D1", "iteration:" + key, sample={"site": where, "hash": classes[0][1][3], "why": classes[0][0][1]} if n <= 4 else None)
                 continue
             why = classes[0][0][1] if classes else "the table's creation site is not visible from here"
+            if ent is not None and ent.get("requires") == "integer-keys":
+                sets = [x for d_ in dig.values() for x in d_["sets"] if x[0] == unit and x[2] == table]
+                if not sets:
+                    raise AnalysisBroken("%s: no tblSetElt on '%s' found to confirm that its keys are integers" % (unit, table))
+                bad = [x for x in sets if not (x[3] or "").startswith(("i", "u", "enum", "char"))]
+                if bad:
+                    rep.violation("D1", "iteration:" + key, "%s:%d (%s)" % (unit, bad[0][5], bad[0][1]),
+                                  "table '%s' uses the default pointer hash and is iterated to emit output (%s); that was acceptable "
+                                  "because its keys were integers, but `%s` stores a key of class %s: the order of the emitted "
+                                  "entries now follows heap addresses and differs from run to run" % (table, where, bad[0][4], bad[0][3]))
+                    continue
             if ent is not None:
                 rep.ok("D1", "iteration:" + key, nontrivial=True)
                 rep.note("D1 frozen %s (%s): %s" % (key, why, ent["reason"]))
